@@ -474,3 +474,11 @@ mod tests {
         assert_eq!(bvh.intersects(&ray), Some(1.0));
     }
 }
+
+/// Puntos de acceso para verificación (no forman parte de la API pública)
+#[cfg(any(kani, verif_hooks))]
+impl<T: Bounded> BVH<T> {
+    pub fn verif_partition(elements: Vec<T>) -> (Vec<T>, Vec<T>) {
+        BVH::partition_elements_by_centroid(elements)
+    }
+}
